@@ -68,9 +68,12 @@ CHECKS["C11"] = dict(
           "and mapping constructor agree with the list constructor; chain level: whatever to_dict writes, from_dict reads back as "
           "the chain with the same mother whose decays are exactly the part of the original reachable from the mother, each mode "
           "the DecayMode round trip of the original's, also when a decaying particle occurs several times (finding F4). Unbounded. "
-          "PARTIAL: the parser form (build_decay_chains output) and termination of to_dict are tied by correspondence + oracle."),
+          "Parser clause (Dec/ParserForm.v, C11_parser_chain_roundtrip): for any tables, any stable set not containing the mother and any "
+          "single-line chain the parser model builds, from_dict succeeds and to_dict returns — with fuel bounded by the size of the chain — "
+          "the same dictionary up to a permutation of the daughters at every level (mother, bf, model information equal). "
+          "Termination of to_dict on class-form chains that do not come from the parser (cyclic decays dicts) is not claimed."),
     design="DESIGN.md §5 C11",
-    technique="Coq proof (permutation/count_occ, sorting canonical form, str.split model, accumulator invariant for _build_decay_modes) + differential correspondence")
+    technique="Coq proof (permutation/count_occ, sorting canonical form, str.split model, accumulator invariants for _build_decay_modes on to_dict output and on parser chains, determinism of the unfolding relation) + differential correspondence")
 CHECKS["C13"] = dict(
     text=("Theorems: to_string of a chain is the function `descr` of its single-mode dictionary — first pattern at the top, "
           "second at every nested level, daughters sorted at each level; identical string for any order of daughters and "
